@@ -830,6 +830,12 @@ class SReal:
             raise ShimUnsupported('float() of a symbolic real')
         return float(c)
 
+    def __int__(s):
+        c = s.const()
+        if c is None:
+            raise ShimUnsupported('int() of a symbolic real')
+        return int(c)
+
     def __repr__(s):
         return f'SReal({s._z if s._z is not None else "table"})'
 
